@@ -644,6 +644,8 @@ func wktEncHandler(raw json.RawMessage) map[string]any {
 	obs := map[string]any{"encok": false, "enctoks": []any{}, "text": "", "own": map[string]any{"text": "", "vclass": "none", "l": "-", "tree": map[string]any{"t": "-", "body": []int{}}}}
 	g := buildWKTGeom(c.G)
 	text, err := wkt.Marshal(g)
+	retainStr("wkt.Marshal", text)
+	obs["overwritten"] = drainOverwritten()
 	if err == nil {
 		obs["encok"] = true
 		obs["text"] = text
